@@ -937,6 +937,38 @@ private:
         }
         same_contents(mem, mirror, "source of the self-assignments (mem) changed: k, got, expected");
 
+        // moving an owning tensor hands over its elements; the moved-from object, re-armed with resize(<same shape>), is a
+        // tensor of its own again: m_size elements, all of them addressable, none shared with the new owner
+        {
+            tmem source(mem);
+            tmem moved(std::move(source));
+            same_contents(moved, mirror, "mem(mem&&): k, got, expected");
+            source.resize(m_dims);
+            REQ(source.dims() == m_dims, "convert/move/dims", "resize of a moved-from tensor");
+            REQ(m_size == 0 || (source.data() != nullptr && source.data() != moved.data()), "convert/move/buffer",
+                "moved-from tensor after resize(same shape) has no buffer of its own");
+            for (ts k = 0; k < m_size; ++k)
+            {
+                source.data()[k] = mirror2[static_cast<size_t>(k)];
+            }
+            same_contents(source, mirror2, "moved-from tensor after resize + fill: k, got, expected");
+            same_contents(moved, mirror, "mem(mem&&) after its source was re-used: k, got, expected");
+
+            tmem target;
+            target = std::move(source);
+            same_contents(target, mirror2, "mem = mem&&: k, got, expected");
+            source.resize(m_dims);
+            REQ(source.dims() == m_dims, "convert/move/dims", "resize of a moved-from (move-assigned) tensor");
+            REQ(m_size == 0 || (source.data() != nullptr && source.data() != target.data()), "convert/move/buffer",
+                "move-assigned-from tensor after resize(same shape) has no buffer of its own");
+            for (ts k = 0; k < m_size; ++k)
+            {
+                source.data()[k] = mirror[static_cast<size_t>(k)];
+            }
+            same_contents(source, mirror, "move-assigned-from tensor after resize + fill: k, got, expected");
+            same_contents(target, mirror2, "mem = mem&& after its source was re-used: k, got, expected");
+        }
+
         // the chain mem -> map -> cmap -> mem
         tmap  chain1(mem);
         tcmap chain2(chain1);
